@@ -59,6 +59,28 @@ def _install_mac_contract():
         verify._vf_contract = True
         cls.verify = verify
 
+    # ... and on the AEAD ciphers: a packet is only handed back when the tag
+    # that was checked is a whole 16-byte tag
+    import asyncssh.encryption as _encmod
+    for cls in (_encmod.GCMEncryption, _encmod.ChachaEncryption):
+        orig = cls.decrypt_packet
+        if getattr(orig, '_vf_contract', False):
+            continue
+
+        def decrypt_packet(self, seq, first, rest, header_len, mac,
+                           _orig=orig):
+            out = _orig(self, seq, first, rest, header_len, mac)
+            _MAC_CALLS['n'] += 1
+            if len(mac) != 16:
+                _MAC_CALLS['short'] += 1
+                if out is not None and len(_MAC_CALLS['bad']) < 4:
+                    _MAC_CALLS['bad'].append(
+                        f'{type(self).__name__}.decrypt_packet accepted a '
+                        f'{len(mac)}-byte tag')
+            return out
+        decrypt_packet._vf_contract = True
+        cls.decrypt_packet = decrypt_packet
+
 
 _install_mac_contract()
 
